@@ -35,7 +35,8 @@ type HandlerInfo struct {
 	LookupSites []*ast.CallExpr
 }
 
-var identRe = regexp.MustCompile(`[A-Za-z_][A-Za-z_0-9]*(#[0-9]+)?`)
+// (name, name#2 for a shadowing declaration, name~helper for a local of a helper judged in place)
+var identRe = regexp.MustCompile(`[A-Za-z_][A-Za-z_0-9]*(#[0-9]+)?(~[A-Za-z_][A-Za-z_0-9]*)?`)
 
 // canonKey rewrites lookup variables to $<field> and the receiver to $t.
 func (h *HandlerInfo) canonKey(k string) string {
@@ -149,6 +150,47 @@ func (m *ServerModel) handlerInfo(fi *FuncInfo) *HandlerInfo {
 		}
 		return true
 	})
+	// lookups made for the handler by private helpers that are judged in its context
+	// (ref, ok := cs.LookupFID(dirFID) inside createInDir(cs, t.Directory, ...)): the variable
+	// and the field as they render in the handler's frame
+	seen := map[*ast.CallExpr]bool{}
+	for _, s := range m.DB.Deep[fi] {
+		if s.Callee != "p9.connState.LookupFID" || s.Call == nil || len(s.Call.Args) != 1 || len(s.Inl) == 0 || s.Res == nil {
+			continue
+		}
+		key := s.Inl[0].Call
+		_ = key
+		as, ok := m.L.parent(s.Call).(*ast.AssignStmt)
+		if !ok || len(as.Lhs) != 2 {
+			continue
+		}
+		allTransparent := true
+		for _, fr := range s.Inl {
+			if f, isF := info.Defs[fr.Decl.Name].(*types.Func); !isF || !m.transparent(m.L.FuncOf(f)) {
+				allTransparent = false
+			}
+		}
+		if !allTransparent {
+			continue
+		}
+		id, ok := as.Lhs[0].(*ast.Ident)
+		if !ok {
+			continue
+		}
+		field := s.Res.str(s.Call.Args[0])
+		if i := strings.LastIndex(field, "."); i >= 0 {
+			field = field[i+1:]
+		}
+		name := s.Res.str(id)
+		if _, dup := h.Lookups[name]; dup {
+			continue
+		}
+		h.Lookups[name] = field
+		if !seen[s.Call] {
+			seen[s.Call] = true
+			h.LookupSites = append(h.LookupSites, s.Call)
+		}
+	}
 	return h
 }
 
